@@ -109,6 +109,14 @@ func recBig(d int32) reflog.RecSpec {
 		Headers: []reflog.Header{{Key: "hdr", Value: []byte("val")}}}
 }
 
+// timestamp deltas are varlongs: beyond the int32 range in both directions
+func recWidePos(d int32) reflog.RecSpec {
+	return reflog.RecSpec{OffsetDelta: d, TimestampDelta: 1<<31 + 5, Key: []byte("kw"), Value: []byte("vw")}
+}
+func recWideNeg(d int32) reflog.RecSpec {
+	return reflog.RecSpec{OffsetDelta: d, TimestampDelta: -(1 << 31) - 7, Key: []byte("kn"), Value: []byte("vn")}
+}
+
 type shape struct {
 	name string
 	recs []reflog.RecSpec
@@ -123,6 +131,7 @@ var (
 	shEmpty = shape{"empty-compacted", nil, 1}
 	shFirst = shape{"2rec-first-gone", []reflog.RecSpec{recA(1), recB(2)}, 2}
 	shBig   = shape{"2rec-big", []reflog.RecSpec{recBig(0), recC(1)}, 1}
+	shWide  = shape{"2rec-ts-delta-beyond-int32", []reflog.RecSpec{recWidePos(0), recWideNeg(1)}, 1}
 )
 
 type txnType struct {
@@ -277,6 +286,9 @@ func buildCatalog() []*kind {
 	for _, cd := range allCodecs {
 		add(v2data(ttPlain, sh2, cd, true, setS))
 	}
+	add(v2data(ttPlain, shWide, cNone, false, setS))
+	add(v2data(ttTxn1, shWide, cGzip, false, setS))
+	add(v2data(ttPlain, shWide, cNone, true, setS))
 	add(v2data(ttTxn1, shLOD, cNone, true, setS))
 	for _, pid := range []int64{1, 2} {
 		for _, typ := range []int16{reflog.ControlCommit, reflog.ControlAbort} {
